@@ -74,7 +74,9 @@ class Machine:
     def wx(s, r, v, w=64, spreg=False):
         if w == 32 and not isinstance(v, Ptr): v = zx(trunc(v, 32), 32, 64)
         if r == 31:
-            if spreg: s.sp = v
+            if spreg:
+                s.sp = v
+                if isinstance(v, Ptr) and is_c(v.off): s.min_sp = v.off if getattr(s, 'min_sp', None) is None else min(s.min_sp, v.off)
             return
         s.written_x.add(r); s.x[r] = v if isinstance(v, Ptr) else mk(v, 64)
     def padd(s, a, b):
